@@ -15,7 +15,7 @@ from vp.pbt import Outcome, Stats, call, drive, exc_sig
 PROPERTY = "C17"
 LEVEL = "fault_enumeration"
 SHARDS = {"quick": 16, "thorough": 16}
-RULE = ("scenarios from Hypothesis (entity = file or folder; previous data or none; new data; set / update / create-with-data; a second "
+RULE = ("scenarios from Hypothesis (entity = file or folder; previous data or none; new data; set (keywords only, or attribute / value plus keywords) / update / create-with-data; a second "
         "entity with its own data); for EVERY scenario ALL crash points are enumerated: a recording run through a file-system interposer lists "
         "every effect of the operation (creating / truncating open, each flushed write with its byte length, os.replace / rename, mkdir, touch); "
         "the operation is then re-run from the restored snapshot once per crash point - before each effect and inside every write at each byte "
@@ -52,7 +52,7 @@ def cases(draw):
     ents = draw(gens.universe(m, types=ptypes, min_size=2, max_size=4, names=["x", "y", "x.b"]))
     e = draw(st.integers(0, len(ents) - 1))
     o = draw(st.integers(0, len(ents) - 1))
-    op = draw(st.sampled_from(["set", "set", "update", "create_data"]))
+    op = draw(st.sampled_from(["set", "set", "set_attr", "update", "create_data"]))
     prev = draw(st.one_of(st.none(), data_dict)) if op != "create_data" else None
     return {"entities": [[t, f] for t, f in ents], "e": e, "o": o, "op": op, "prev": prev, "new": draw(data_dict),
             "other": draw(data_dict), "mode": draw(st.sampled_from(["crash", "crash", "crash", "corrupt"]))}
@@ -108,6 +108,10 @@ def evaluate(case) -> Outcome:
     def do_op(writer):
         if op == "set":
             return writer.set(se, **dict(case["new"]))
+        if op == "set_attr":
+            # one attribute / value pair and the remaining pairs as keywords: still ONE write for the reader
+            items = list(case["new"].items())
+            return writer.set(se, items[0][0], items[0][1], **dict(items[1:]))
         if op == "update":
             return writer.update(se, dict(case["new"]))
         return writer.create(se, data=dict(case["new"]))
